@@ -24,6 +24,15 @@ CHECKS = {
  "C09": dict(level="fault_enumeration", engine="LOG", technique="stateful property testing of DepsLog sessions with every-offset truncation, garbage tails and structured damage, oracle = independent binary-format parser + recorded-deps model",
              text="Generated multi-session histories on a real .ninja_deps; every truncation offset (exhaustive up to 3000 bytes), random tails and structurally malformed records after a valid prefix, each continued by an appending session and a reload; deps loaded == fold of complete well-formed records == most recently recorded deps; file size after recovery == end of last good record.",
              ref="4/C09", note="Trusted base: M-depslog parser in verif/props/C09.py, the probe's op interpreter. Two genuine defects found by this check were repaired (fix: commits 33f8d0f, 9f3b7db)."),
+ "C10": dict(level="exploration", engine="SIM", technique="metamorphic testing: discovered dependencies vs the same dependencies declared as implicit inputs, same generated history on both",
+             text="Each generated history runs twice in lockstep: on the graph whose commands report hidden reads through depfile/deps=gcc/deps=msvc (sources and generated files, canonical and -Iinc/.. style spellings) and on the variant with those reads written as implicit inputs; result, commands run and contents must agree per invocation. Differences that the counterfactual model attributes to known finding D1 are listed, not hidden.",
+             ref="4/C10", note=SIM_NOTE),
+ "C11": dict(level="exploration", engine="SIM", technique="metamorphic testing (dyndep vs inlined manifest) plus mutation/truncation of dyndep files against a by-construction validity oracle",
+             text="Graphs with 1-2 dyndep files (present or produced mid-build; adding inputs, outputs, restat; build-level and rule-level bindings) run next to the manifest with that information inlined; 13 structural mutations and truncation (every offset for a fixed family) must make the build fail without running the bound statements.",
+             ref="4/C11", note=SIM_NOTE + " Five genuine defects found here were repaired (fix: c03a4e2, b94642d, 27f5f3f, 64ea95a and D13's 9d5201e); D18 is a listed known finding."),
+ "C17": dict(level="exploration", engine="SIM", technique="bounded-exhaustive enumeration of small graphs plus generated cycle injection, oracle = reference cycle finder on the needed closure",
+             text="Every 2-statement graph over 3 files (thorough: 4) with every input kind and validations, every 3-statement graph with explicit/order-only inputs, every target; plus generated graphs with one injected cycle (manifest, depfile, deps log, dyndep at scan time or mid-build, phony self-reference in both -w modes) or the acyclic validation control; the printed cycle is verified hop by hop and no statement of the cycle may start once it is known.",
+             ref="4/C17", note=SIM_NOTE + " Known findings D1 (cycle through discovered inputs of an already-dirty statement) and D19 (dyndep-added output, consumer not re-scanned) are attributed by narrow predicates."),
  "C12": dict(level="exploration", engine="manifest-diff", technique="differential testing of ManifestParser against a reference evaluator written from the manual, on grammar-generated multi-file programs and single-token mutants",
              text="Every generated program (and up to four single-token mutants of it) is parsed by ninja and by an independent ~450-line evaluator of the documented language; accept/reject, the complete graph dump (outputs, kind of every input, validations, pools, defaults, every evaluated binding) and the file:line of each diagnostic must agree, in both -w phonycycle modes.",
              ref="4/C12", note="Trusted base: verif/mref.py (reference, the manual is the arbiter on disagreements), the probe's graph dump. Two genuine defects found here were repaired (fix: b86922a, 9d5201e)."),
@@ -41,7 +50,7 @@ CHECKS = {
              note="Trusted base: cxx/ref_canon.h (reference), ASan/UBSan. POSIX build only."),
 }
 ENGINES = [
- dict(name="SIM", path="cxx/probe_sim.h + verif/simrun.py", serves_properties=["C01", "C02", "C03", "C04", "C05", "C06"],
+ dict(name="SIM", path="cxx/probe_sim.h + verif/simrun.py", serves_properties=["C01", "C02", "C03", "C04", "C05", "C06", "C10", "C11", "C17"],
       kind_free_text="in-process build simulator: virtual disk with logical clock, scripted command runner owning the schedule, real log files; forked per request by the probe server"),
  dict(name="LOG", path="cxx/probe_misc.h (buildlog/depslog op interpreters) + verif/props/C08.py, C09.py", serves_properties=["C08", "C09"],
       kind_free_text="real BuildLog/DepsLog objects on real files driven by generated op lists inside the forked probe; files are cut from outside at every offset"),
